@@ -84,11 +84,28 @@ txt = {
  "V_via4": "SIP/2.0/UDP pc33.a.example;branch=z9hG4bK-776.asd_hds", "V_via4b": "SIP/2.0/TCP 10.1.1.1:5061;branch=z9hG4bK-776.asd_hds;rport",
  "V_via5": "SIP/2.0/UDP h, SIP/2.0/UDP g;branch=z9hG4bK-a.b_c", "V_via6": "SIP/2.0/UDP g;branch=z9hG4bK-a.b_c",
  "V_via7": "SIP/2.0/UDP h;rport", "V_via8": "SIP/2.0/UDP h;rport, SIP/2.0/UDP g;branch=z9hG4bK-a.b_c",
+ "V_via4q1": "SIP/2.0/UDP pc33.a.example;foo=\"bar\";branch=z9hG4bK-776.asd_hds", "V_via4q2": "SIP/2.0/UDP pc33.a.example;foo=\"b;branch=x\\\"r,\" ;branch=z9hG4bK-776.asd_hds",
+ "V_via4q3": "SIP/2.0/UDP pc33.a.example;rport;received=\"1.2.3.4\";x=\"\";branch=z9hG4bK-776.asd_hds;y=\"z\"", "V_via4q4": "SIP/2.0/UDP pc33.a.example ; ttl = 1 ;maddr=224.2.0.1;branch=z9hG4bK-776.asd_hds , SIP/2.0/UDP g;branch=other",
+ "V_via4q5": "SIP/2.0/UDP pc33.a.example;BRANCH=z9hG4bK-776.asd_hds", "V_via4q6": "SIP/2.0/UDP [2001:db8::1]:5060;branchx=1;xbranch=2;branch=z9hG4bK-776.asd_hds;branc=second",
  "V_maxfwd2": "0", "V_ua2": "x/2 (y)", "V_cseq5": "1 INVITE",
 }
+
+# header names of RFC 3261 and of common extensions (long and compact); the type of each is whatever the documented
+# table says (Lookup!GetHdrTypeDecl) -- most are "other" and must stay so
+RFC_NAMES = ["Accept", "Accept-Encoding", "Accept-Language", "Alert-Info", "Allow", "Authentication-Info", "Authorization", "Call-Info",
+ "Content-Disposition", "Content-Encoding", "Content-Language", "Content-Type", "Date", "Error-Info", "In-Reply-To", "Min-Expires",
+ "MIME-Version", "Organization", "Priority", "Proxy-Authenticate", "Proxy-Authorization", "Proxy-Require", "Reply-To", "Require",
+ "Retry-After", "Server", "Subject", "Supported", "Timestamp", "Unsupported", "Warning", "WWW-Authenticate", "Event", "Allow-Events",
+ "Subscription-State", "Refer-To", "Referred-By", "Replaces", "RAck", "RSeq", "Session-Expires", "Min-SE", "Path", "Service-Route",
+ "P-Preferred-Identity", "P-Called-Party-ID", "P-Associated-URI", "Privacy", "Reason", "P-Access-Network-Info", "P-Charging-Vector",
+ "History-Info", "Diversion", "Remote-Party-ID", "Accept-Contact", "Reject-Contact", "Request-Disposition", "Security-Client",
+ "Security-Server", "Security-Verify", "SIP-ETag", "SIP-If-Match", "Identity", "Identity-Info", "Join", "Target-Dialog", "Geolocation",
+ "User-to-User", "X-Forwarded-For", "Client", "Agent", "User", "Call", "ID", "Forwards", "Length", "Content", "Record", "Max",
+ "a", "b", "c", "d", "e", "j", "k", "n", "o", "r", "s", "u", "x", "y", "UA", "To-Tag", "From-Tag", "Via-Branch", "Contacts", "Routes"]
 out = ["------------------------------- MODULE Texts -------------------------------",
        "(* GENERATED by gen_texts.py -- literal texts as byte tuples (no structure, no offsets) *)", "EXTENDS Integers, Sequences", ""]
 for k, v in txt.items():
     out.append("%s == %s" % (k, T(v)))
+out.append("RfcNames == <<%s>>" % ", ".join(T(n) for n in RFC_NAMES))
 out.append("=============================================================================")
 open("Texts.tla", "w").write("\n".join(out) + "\n")
